@@ -35,12 +35,12 @@ fn work_factor(id: &str) -> f64 {
         "C01" => 25.0,
         "C02" => 120.0,
         "C03" => 15.0,
-        "C04" => 4.0,
+        "C04" => 3.0,
         "C05" => 25.0,
         "C06" => 25.0,
         "C07" => 25.0,
         "C08" => 25.0,
-        "C09" => 20.0,
+        "C09" => 12.0,
         "C10" => 10.0,
         "C11" => 60.0,
         "C12" => 120.0,
